@@ -302,6 +302,38 @@ def rule_concat(model):
     return r
 
 
+def _rebound_globals(model, m):
+    """Module-level names of module m that some function re-assigns:
+    through a `global` statement or as attribute of the imported module."""
+    cache = getattr(model, '_dt_rebound', None)
+    if cache is None:
+        cache = model._dt_rebound = {}
+        for fi in model.all_funcs():
+            gl = set()
+            for n in own_nodes(fi.node):
+                if isinstance(n, ast.Global):
+                    gl.update(n.names)
+            for n in own_nodes(fi.node):
+                tg = []
+                if isinstance(n, ast.Assign):
+                    tg = n.targets
+                elif isinstance(n, (ast.AugAssign, ast.AnnAssign)):
+                    tg = [n.target]
+                for t in tg:
+                    if isinstance(t, ast.Name) and t.id in gl:
+                        cache.setdefault(fi.module.short, set()).add(t.id)
+                    if isinstance(t, ast.Attribute) and isinstance(
+                            t.value, ast.Name) and \
+                            t.value.id in fi.module.imports and not \
+                            model.local_defs(fi, t.value.id):
+                        imp = fi.module.imports[t.value.id]
+                        tgt = str(imp[1] or imp[0]).rsplit('.', 1)[-1]
+                        cache.setdefault(tgt, set()).add(t.attr)
+                        cache.setdefault(t.value.id.lstrip('_'),
+                                         set()).add(t.attr)
+    return cache.get(m.short, set())
+
+
 def rule_decoders(model):
     r = RuleResult('C19.R3', 'html_quote and join_unicode decode bytes with '
                    'the encoding they are given')
@@ -325,6 +357,17 @@ def rule_decoders(model):
             if not ok:
                 r.finding(fi.where, d, f'{name} decodes bytes without '
                           'using its encoding parameter', node=d, ctx=fi)
+            if arg is not None:
+                for x in ast.walk(arg):
+                    if isinstance(x, ast.Name) and x.id != 'encoding' and \
+                            x.id in _rebound_globals(model, fi.module):
+                        r.finding(fi.where, d, f'{name} decodes with '
+                                  f'`{x.id}`, a module-level variable that '
+                                  'is re-assigned while templates render: '
+                                  'process-wide state, so a render in '
+                                  'another thread (or a nested template '
+                                  'with another encoding) decides how these '
+                                  'bytes are decoded', node=d, ctx=fi)
             if isinstance(d.func.value, ast.Call):
                 r.finding(fi.where, d, f'{name} decodes a combination of '
                           'pieces in one call: every bytes value must be '
